@@ -26,5 +26,6 @@ package sha256verifier
 //@ func (s *sha256verifier) Close() error
 //@   serves C01
 //@   requires s != nil && s.Hash != nil && s.originalWriteCloser != nil
+//@   modifies icloseN, iclosed
 //@   ensures[C01] verified: result == nil ==> (s.actualSize == s.expectedSize && s.expectedHash == hexsum(hStream))
 //@   call Close#* asserts[C01] checkedfirst: s.actualSize == s.expectedSize && s.expectedHash == hexsum(hStream) && arg0 == s.originalWriteCloser
